@@ -68,6 +68,9 @@ def lin(e):
     e = strip_widen(e)
     if e[0] == "int":
         return ZERO, e[1]
+    l_ = is_len_of(e) if e[0] in ("call", "unop") else None
+    if l_ is not None and sym.norm(l_)[0] == "bytes":
+        return ZERO, len(sym.norm(l_)[1])
     if e[0] == "field" and e[2] == "0" and e[1][0] == "binop" and e[1][1] in ("AddWithOverflow", "SubWithOverflow"):
         a, b = e[1][2], e[1][3]
         ta, ka = lin(a)
@@ -153,6 +156,17 @@ class Facts:
                     ln = self._len_atom_of(sym.norm(it[3][0]))
                     for l_ in ln:
                         self.add(l_, x, 1, "position found in a slice is < its length")
+            if x[0] == "call" and x[1].split("::")[-1] == "unwrap_or" and len(x[3]) == 2:
+                # position(..).unwrap_or(d): either an index < len(X) or d
+                c = x[3][0]
+                if c[0] == "call" and c[1].split("::")[-1] in ("position", "rposition") and c[3]:
+                    self.add(x, ZERO, 0)
+                    it = self.expand(c[3][0])
+                    td, kd = lin(x[3][1])
+                    if it is not None and it[0] == "call" and it[1].split("::")[-1] in ("iter", "iter_mut") and it[3]:
+                        for l_ in self._len_atom_of(sym.norm(it[3][0])):
+                            if td == l_ and kd <= 0 or (td == ZERO and False):
+                                self.add(l_, x, 0, "position(..).unwrap_or(len) <= len")
             if x[0] == "field" and x[2] == "0" and x[1][0] == "binop" and x[1][1] in ("AddWithOverflow", "SubWithOverflow"):
                 # a checked result that is used was not an overflow: exact arithmetic on non-negative operands
                 a, b = x[1][2], x[1][3]
@@ -298,7 +312,7 @@ class Facts:
         return None if lo is None else lo + ka
 
 
-def build(conds, exprs, expand=None, unsigned=()):
+def build(conds, exprs, expand=None, unsigned=(), stable=None):
     """Facts from dominating conditions `conds` [(expr, value, block)] plus axioms for every expression involved."""
     F = Facts(expand)
     allx = [untry(x) for x in exprs] + [untry_cond(e, v)[0] for e, v, _ in conds]
@@ -314,7 +328,7 @@ def build(conds, exprs, expand=None, unsigned=()):
     # two length expressions of the same (unmodified) slice value are equal
     for i, a in enumerate(lens):
         for b in lens[i + 1:]:
-            if a != b and sym.norm(is_len_of(a)) == sym.norm(is_len_of(b)) and _pure_place(sym.norm(is_len_of(a))):
+            if a != b and sym.norm(is_len_of(a)) == sym.norm(is_len_of(b)) and (_pure_place(sym.norm(is_len_of(a))) or (stable is not None and stable(a) and stable(b))):
                 F.add(a, b, 0)
                 F.add(b, a, 0)
     for x in allx:
